@@ -1,6 +1,7 @@
 package pure
 
 import (
+	"errors"
 	"fmt"
 	"net"
 	"sort"
@@ -15,14 +16,19 @@ import (
 // C16: what a service announces via mDNS is what a ship-go browser reads back; QR text parses back.
 
 type capProvider struct {
-	txts  [][]string
-	names []string
-	ports []int
+	txts     [][]string
+	names    []string
+	ports    []int
+	failNext bool // the next Announce fails (daemon unavailable)
 }
 
 func (p *capProvider) Start(autoReconnect bool, cb api.MdnsResolveCB) bool { return true }
 func (p *capProvider) Shutdown()                                           {}
 func (p *capProvider) Announce(serviceName string, port int, txt []string) error {
+	if p.failNext {
+		p.failNext = false
+		return errors.New("announce failed")
+	}
 	p.txts = append(p.txts, append([]string(nil), txt...))
 	p.names = append(p.names, serviceName)
 	p.ports = append(p.ports, port)
@@ -250,14 +256,67 @@ func checkC16(col *vc.Collector, id string, c c16Config, r *vc.Rand) {
 		viol("announce-error", "other", err.Error())
 		return
 	}
-	// toggle auto accept: the announcement has to follow
-	a.SetAutoAccept(c.Auto)
-	if r.Bool() {
-		a.SetAutoAccept(!c.Auto)
-		a.SetAutoAccept(c.Auto)
+	// a history of auto-accept changes, unannouncements, announcements and failing announcements: every
+	// announcement has to carry the auto-accept value of that moment, a change while announced has to be
+	// followed by a new announcement
+	cur, announced := false, true
+	regOf := func(txt []string) string {
+		for _, t := range txt {
+			if strings.HasPrefix(t, "register=") {
+				return t[len("register="):]
+			}
+		}
+		return "(missing)"
 	}
+	var hist []string
+	checkLast := func(op string) {
+		if n := len(prov.txts); n > 0 && regOf(prov.txts[n-1]) != fmt.Sprintf("%v", cur) {
+			wit["history"] = hist
+			viol("txt-register-stale", "other", fmt.Sprintf("after %v the announced TXT says register=%s, auto accept is %v", hist, regOf(prov.txts[n-1]), cur))
+		}
+	}
+	nops := r.Range(0, 6)
+	for k := 0; k < nops; k++ {
+		before := len(prov.txts)
+		switch r.Intn(4) {
+		case 0:
+			cur = r.Bool()
+			hist = append(hist, fmt.Sprintf("auto(%v)", cur))
+			a.SetAutoAccept(cur)
+			if announced && len(prov.txts) == before {
+				viol("no-reannounce-on-autoaccept", "other", fmt.Sprintf("history %v", hist))
+			}
+			if len(prov.txts) > before {
+				checkLast("auto")
+			}
+		case 1:
+			hist = append(hist, "unannounce")
+			a.UnannounceMdnsEntry()
+			announced = false
+		case 2:
+			hist = append(hist, "announce")
+			if err := a.AnnounceMdnsEntry(); err == nil {
+				announced = true
+				checkLast("announce")
+			}
+		case 3:
+			hist = append(hist, "announce-fails")
+			prov.failNext = true
+			_ = a.AnnounceMdnsEntry()
+			prov.failNext = false
+		}
+	}
+	col.Class(prop, fmt.Sprintf("history:%d-ops:announced=%v", nops, announced))
+	cur = c.Auto
+	hist = append(hist, fmt.Sprintf("auto(%v)", cur))
+	a.SetAutoAccept(c.Auto)
+	if !announced {
+		hist = append(hist, "announce")
+		_ = a.AnnounceMdnsEntry()
+	}
+	checkLast("final")
 	if len(prov.txts) < 2 {
-		viol("no-reannounce-on-autoaccept", "other", fmt.Sprintf("%d announcements", len(prov.txts)))
+		viol("no-reannounce-on-autoaccept", "other", fmt.Sprintf("%d announcements after %v", len(prov.txts), hist))
 		return
 	}
 	txt := prov.txts[len(prov.txts)-1]
